@@ -25,6 +25,7 @@ import IgrisModel.C09.Bound
 import IgrisModel.C09.Bounded
 import IgrisModel.C09.Layout
 import IgrisModel.C09.Into
+import IgrisModel.C09.Cost
 namespace Igris.C09
 open Igris.Proto
 
@@ -144,7 +145,7 @@ theorem recorded_vector_encodings_unchanged (k : Sc) (vs : List Val)
     (h : vs.length * k.width ≤ 65535) :
     encodeVecRaw k vs = encodeA (.vec (.sc k)) (.list vs) := by
   have hl : (vs.flatMap fun v => leBytes k.width v.bits).length ≤ u16 (vs.length * k.width) := by
-    rw [flatMap_leBytes_length, u16_of_le h]; exact Nat.le_refl _
+    rw [flatMap_leBytes_length, u16_of_le h] <;> exact Nat.le_refl _   -- (`rw` closes `n ≤ n` itself once Mathlib's `@[refl]` is in scope)
   simp only [encodeVecRaw, encodeA, Val.items, dumpData]
   rw [List.take_of_length_le hl]
   simp only [dumpScalar_eq]
@@ -847,6 +848,41 @@ theorem count_wrap_following_value_witness :
         (encodeFieldsA [.vec (.sc .u8), .sc .u8] [.list (List.replicate 65536 (.sc 7)), .sc 5]) =
       some ([.list [], .sc 7], List.replicate 65535 7#8 ++ [5#8]) :=
   wrap_following_65536
+
+/-! ## 17. extension 3: HOSTILE INPUT — what a decode can allocate (cost model)
+
+`vsize v` = number of nodes of the decoded value (one per scalar, per string byte, per container / entry node),
+`blank ty` = the size of the value an exhausted input decodes to.  A count is 2 bytes on the wire: it announces at
+most 65535 elements and, because missing bytes read as zero, it announces NONE once the input is exhausted. -/
+
+/-- DECODE ALLOCATES AT MOST `blank ty * (1 + 65535 * consumed)` nodes: for every type, arbitrarily nested, and EVERY
+input (counts larger than the remaining input, 65535 x 65535 nested counts, …).  Memory is linear in the bytes
+actually consumed with the constant 65535 of the count width — a 4-byte input can never make the reader allocate
+4 GiB (`vector<vector<uint8_t>>` on 4 bytes: at most 2 * 262141 nodes) -/
+theorem decode_allocates_at_most (ty : Ty) (input : List Byte) (v : Val) (r : List Byte)
+    (h : decodeB ty input = some (v, r)) :
+    vsize v ≤ blank ty * (1 + 65535 * (input.length - r.length)) := by
+  obtain ⟨c, e, b⟩ := bndB ty input v r h
+  have hc : input.length - r.length = c := by omega
+  rw [hc]; exact b
+
+/-- … in particular linear in the length of the input -/
+theorem decode_allocates_linear_in_input (ty : Ty) (input : List Byte) (v : Val) (r : List Byte)
+    (h : decodeB ty input = some (v, r)) : vsize v ≤ blank ty * (1 + 65535 * input.length) :=
+  Nat.le_trans (decode_allocates_at_most ty input v r h)
+    (Nat.mul_le_mul_left _ (Nat.add_le_add_left (Nat.mul_le_mul_left _ (Nat.sub_le _ _)) _))
+
+/-- the constant is reached (so memory is NOT bounded by the input length alone): the 2-byte input `ff ff` decodes,
+as a `vector<uint8_t>`, to 65535 zero elements -/
+theorem decode_allocation_witness :
+    decodeB (.vec (.sc .u8)) [0xff#8, 0xff#8] = some (.list (List.replicate 65535 (.sc 0)), []) ∧
+    vsize (.list (List.replicate 65535 (.sc 0))) = 65536 ∧ blank (.vec (.sc .u8)) = 2 := by
+  refine ⟨hostile_count_decode, ?_, rfl⟩
+  simp only [vsize, vsizes_replicate_sc]
+
+example : ∃ v r, decodeB (.vec (.vec (.sc .u8))) [0xff, 0xff, 0x02, 0x00, 0x07] = some (v, r) :=
+  let ⟨v, _, _, h⟩ := bounded_archive_reader_safe (.vec (.vec (.sc .u8))) [0xff, 0xff, 0x02, 0x00, 0x07]
+  ⟨v, _, h⟩
 
 -- extension 2: maps in key order for the key types that were excluded before
 example : WF (.map (.vec (.sc .u8)) .str)
